@@ -4,11 +4,19 @@ set -e
 cd /verif
 b="$1"
 git merge --no-commit --no-ff "$b" >/dev/null 2>&1 || true
-for f in MANIFEST.json lean/JjModel.lean lean/Driver/Registry.lean; do
+for f in MANIFEST.json lean/JjModel.lean lean/Driver/Registry.lean tools/translate.py; do
   git checkout --ours -- "$f" 2>/dev/null || true
 done
+python3 tools/merge_kf.py "$b"
 # evidence files: take theirs (run results); they are rewritten by every check anyway
 for f in $(git diff --name-only --diff-filter=U | grep '^evidence/' || true); do git checkout --theirs -- "$f"; done
+# Cargo.toml dependency lists: keep both sides' lines
+for f in harness/jjverif/Cargo.toml harness/jjverif-cli/Cargo.toml; do
+  if grep -q '^<<<<<<< ' "$f" 2>/dev/null; then sed -i '/^<<<<<<< /d;/^=======$/d;/^>>>>>>> /d' "$f"; fi
+done
+if git diff --name-only --diff-filter=U | grep -v -e '^MANIFEST.json$' -e '^lean/JjModel.lean$' -e '^lean/Driver/Registry.lean$' -e '^tools/translate.py$' -e '^known_findings.json$' -e '^evidence/' -e 'Cargo.toml$' | grep -q .; then
+  echo "UNRESOLVED (merge left in progress):"; git diff --name-only --diff-filter=U; exit 1
+fi
 python3 tools/gen_registry.py
 python3 tools/gen_manifest.py
 git add -A
